@@ -184,15 +184,20 @@ CLAIMED["C01"] = dict(
 )
 CLAIMED["C07"] = dict(
     level="proof",
-    text="NARROW: only the clause 'for every precision value the setters accept'.  The static number formatters of "
+    text="PARTIAL: the writing side.  (a) The frame of vnacal_save on the real code over a recording model of libyaml's "
+         "document functions and a marker contract for sprintf: one entry per calibration in table order (also past an "
+         "empty slot), name, dimensions and frequency count as stored, the reference impedance and every error term written "
+         "with the data precision, every frequency with the frequency precision, one data entry per frequency, the file "
+         "closed once, saving under the object's own file name is safe.  (b) 'For every precision value the setters accept': the static number formatters of "
          "vnacal_save.c (add_integer, add_double, add_complex) are verified, for every precision >= 1 and every "
          "double, to write inside their buffers, against a length-exact sprintf contract; controls show the buffers "
          "suffice up to precision 26 / 25.  The unbounded runs expose a genuine stack overflow (recorded as known "
          "findings, demo under findings/).",
-    note="everything else about the save/load round trip (libyaml, property trees, legacy versions, bit-exactness) "
-         "is outside this technique and NOT decided; sprintf by assumed length contract",
+    note="the LOADING side (libyaml parser events, legacy versions), property trees in the file and bit-exactness of the "
+         "digits are outside this technique and NOT decided; libyaml document/emitter functions by a recording model, "
+         "sprintf by assumed length / marker contracts, stdio assumed to succeed",
     design="DESIGN.md 3 C07, 8.10",
-    technique="CBMC contract harness on the static formatters with a length-exact sprintf contract",
+    technique="CBMC contract harnesses: real vnacal_save over a recording libyaml document model; static formatters with a length-exact sprintf contract",
 )
 CLAIMED["C17"] = dict(
     level="proof",
